@@ -1192,6 +1192,11 @@ func (dht *FullRT) bulkMessageSend(ctx context.Context, keys []peer.ID, fn func(
 	numPeers := len(dht.keyToPeerMap)
 	dht.kMapLk.RUnlock()
 
+	if numPeers == 0 {
+		// Nothing crawled (yet): there is nobody to send to.
+		return errors.New("failed to complete bulk sending: no peers in the routing table")
+	}
+
 	chunkSize := (len(sortedKeys) * dht.bucketSize * 2) / numPeers
 	if chunkSize == 0 {
 		chunkSize = 1
